@@ -95,17 +95,19 @@ impl VehicleType for BEV {
         state: &mut Vec<StateVar>,
         state_model: &StateModel,
     ) -> Result<(), TraversalModelError> {
-        let (energy, _) = self.best_case_energy(distance)?;
+        // the best case energy is in the energy unit of the rate, which need not be the battery's
+        let (energy, energy_unit) = self.best_case_energy(distance)?;
+        let battery_delta = energy_unit.convert(&energy, &self.battery_energy_unit);
         state_model.add_energy(
             state,
             &BEV::ENERGY_FEATURE_NAME.into(),
             &energy,
-            &self.battery_energy_unit,
+            &energy_unit,
         )?;
         vehicle_ops::update_soc_percent(
             state,
             BEV::SOC_FEATURE_NAME,
-            &energy,
+            &battery_delta,
             &self.battery_capacity,
             state_model,
         )?;
